@@ -8,7 +8,7 @@
    HASHTABLE, repaired code: C18_hashtable_memory_safe - for ALL histories (every interleaving of iterator
    create/next/free with put/get/rm/count/foreach/notify/destroy, any number of iterators, next after the end,
    abandoned iterators, any hash function and table size) the pointer-level model never reaches UseAfterFree,
-   OutOfBounds or RefUnderflow (MapHashProofs3.v, invariant GoodP: refcount = presence + parked iterators >= 1,
+   OutOfBounds, RefUnderflow or OutOfFuel - no error state at all (MapHashProofs3.v, invariant GoodP: refcount = presence + parked iterators >= 1,
    parked nodes are linked, linked nodes are live cells).
    Otherwise PARTIAL for the repaired code: proved are (1) the witnesses no longer fail, (2) on layer A (MapRefModel.v, run
    against the library on every check) an iterator only ever returns entries that are present, with their
@@ -38,22 +38,17 @@ Theorem C18_hashtable_witness_fixed :
 Proof. exact hash_c18_witness_fixed. Qed.
 Print Assumptions C18_hashtable_witness_fixed.
 
-(* HASHTABLE, pointer-level model, repaired code: no history touches a freed or out-of-range cell or drops a
-   reference that is not held.  The only error constructor the statement leaves open is OutOfFuel, the model's own
-   bound on the qb_map_foreach loop (it is excluded for iterator-free histories by C17_hashtable_no_error; a
-   general bound is not proved yet). *)
-Theorem C18_hashtable_memory_safe : forall hf rc m ops,
-  match snd (h_run v_fixed hf rc (h_create m) ops) with None => True | Some e => e = OutOfFuel end.
-Proof. exact hash_c18_safe. Qed.
+(* HASHTABLE, pointer-level model, repaired code: EVERY history runs to its end without reaching any error state:
+   no freed or out-of-range cell is touched, no reference is dropped that is not held, and the qb_map_foreach loop
+   stays within the model's fuel (the remaining bucket suffix strictly shrinks at every step). *)
+Theorem C18_hashtable_memory_safe : forall hf rc m ops, snd (h_run v_fixed hf rc (h_create m) ops) = None.
+Proof. exact hash_c18_no_error. Qed.
 Print Assumptions C18_hashtable_memory_safe.
 
 (* the invariant behind it, one API call from any state that satisfies it (or from a destroyed map) *)
 Theorem C18_hashtable_invariant_step : forall hf rc s o, TopInv s ->
-  match h_step v_fixed hf rc s o with
-  | Ok (s', _, _) => TopInv s'
-  | Err e => e = OutOfFuel
-  end.
-Proof. exact hash_step_safe. Qed.
+  exists s' x ns, h_step v_fixed hf rc s o = Ok (s', x, ns) /\ TopInv s'.
+Proof. exact hash_step_total. Qed.
 Print Assumptions C18_hashtable_invariant_step.
 
 (* non-vacuity: the state with an iterator parked on a removed entry (the situation of the refutation above) satisfies
